@@ -19,6 +19,9 @@ pub struct Case {
     pub role: Role,
     pub limit: u16,
     pub ops: Vec<Op>,
+    /// server roles: sink futures created (and polled once) while the handshake service is still running; true = dropped at once
+    #[serde(default)]
+    pub pre: Vec<(SendKind, bool)>,
 }
 
 fn fail(c: &Case, rule: &str, detail: String) -> Failure {
@@ -26,7 +29,7 @@ fn fail(c: &Case, rule: &str, detail: String) -> Failure {
 }
 
 pub async fn run_case(c: Case) -> Result<CaseInfo, Failure> {
-    let mut w = World::start(c.role, c.limit, LimitHow::Config, 64).await.map_err(|f| fail(&c, "harness-handshake", f.detail))?;
+    let mut w = World::start_pre(c.role, c.limit, LimitHow::Config, 64, None, &|_| {}, &c.pre).await.map_err(|f| fail(&c, "harness-handshake", f.detail))?;
     let mut cancelled_parked = false;
     let mut lifted_full = false;
     let mut batch_with_waiters = false;
@@ -215,7 +218,9 @@ fn op_strategy() -> BoxedStrategy<Op> {
 }
 
 fn case_strategy(role: Role) -> BoxedStrategy<Case> {
-    (1u16..4, prop::collection::vec(op_strategy(), 3..26)).prop_map(move |(limit, ops)| Case { role, limit, ops }).boxed()
+    // one history in four (server roles) starts with futures created while the handshake service is still running
+    let pre = prop_oneof![3 => Just(Vec::new()), 1 => prop::collection::vec((send_kind(), any::<bool>()), 1..5)];
+    (1u16..4, prop::collection::vec(op_strategy(), 3..26), pre).prop_map(move |(limit, ops, pre)| Case { role, limit, ops, pre: if role.is_server() { pre.into_iter().map(|(k, d)| (if matches!(k, SendKind::Subscribe | SendKind::Unsubscribe) { SendKind::Qos1 } else { k }, d)).collect() } else { Vec::new() } }).boxed()
 }
 
 pub fn check_case(c: &Case) -> Result<CaseInfo, Failure> {
